@@ -57,6 +57,7 @@ def run(ctx):
     s7(ctx, taint, off)
     s9(ctx)
     s8(ctx)
+    s2t(ctx)
 
 
 # ---------------------------------------------------------------------------------- taint
@@ -895,3 +896,39 @@ def s8(ctx):
                         'not terminate and its hash input grows without bound' % (
                             'before the primality of p was tested' if not prime_p else 'before the form p = qk + 1 was tested'), f)
     ctx.floor('S8', n, 4)
+
+
+# ---------------------------------------------------------------------------------- S2t
+def s2t(ctx):
+    """rows of the fixed-base tables: every table is allocated with TMCG_MAX_FPOWM_T rows (new mpz_t[TMCG_MAX_FPOWM_T] in every
+    class) and is filled / read by the four primitives of mpz_spowm.cc with a row count or an exponent length that comes from
+    group parameters -- in the stream constructors from the wire, before any CheckGroup can run.  Every subscript applied to a
+    table parameter in those primitives must be provably below TMCG_MAX_FPOWM_T (linear prover over the guards and the loop
+    bounds), whatever the count."""
+    prog = ctx.prog
+    rows = fpowm_rows(prog)
+    n = 0
+    for k, f in sorted(prog.funcs.items(), key=lambda kv: kv[1]['line']):
+        if not f.get('body') or not f['file'].endswith('mpz_spowm.cc'):
+            continue
+        tp = [p for p in f['params'] if p['n'].startswith('fpowm_table')]
+        if not tp:
+            continue
+        a = ctx.analysis(f)
+        a.fpowm_rows = rows
+        T = a.T
+        occ = {}
+        for nid, ev in sorted(a.all_events('index'), key=lambda x: (x[1][3], x[0])):
+            bl, it, line, bt = ev[1], ev[2], ev[3], ev[4]
+            if it is None or bl is None or not (isinstance(bl, tuple) and bl[0] == 'v' and str(bl[2]).startswith('fpowm_table')):
+                continue
+            key0 = 'S2t:%s:%s' % (f['q'], T.show(it, 2)[:40])
+            occ[key0] = occ.get(key0, 0) + 1
+            key = '%s#%d' % (key0, occ[key0])
+            n += 1
+            if rows and bounds.index_ok(a, a.instate[nid], bl, bt, it):
+                ctx.ok('S2t', key, 'row index < TMCG_MAX_FPOWM_T (%s) follows from the guards and the loop bound' % rows, f, line=line)
+            else:
+                ctx.bad('S2t', key, 'row %s of a fixed-base table is accessed without a bound below TMCG_MAX_FPOWM_T (%s rows are allocated): a row count or '
+                        'exponent length taken from stream-supplied group parameters runs past the table' % (T.show(it, 3), rows), f, line=line)
+    ctx.floor('S2t', n, 6)
